@@ -8,6 +8,21 @@ import random, collections, itertools
 import vlib, codec, gen, bufrmsg, codecrun
 
 
+ARITH = ("signed integer overflow", "negation of", "shift exponent", "left shift of", "outside the range of representable values")
+
+
+def memory_errors(ctx):
+    """sanitizer reports that concern memory (ASan, and UBSan kinds other than plain integer/float arithmetic, which
+    e.g. 2 07 YYY on a huge reference inside a never-expanded replication triggers without touching memory)"""
+    out = []
+    for l in ctx.cerr.split("\n"):
+        if "ERROR: AddressSanitizer" in l or "SUMMARY: AddressSanitizer" in l:
+            out.append(l)
+        elif "runtime error" in l and not any(a in l for a in ARITH):
+            out.append(l)
+    return " | ".join(out)[:600]
+
+
 def strip(line):
     """outputs compared: everything the harness prints for E/D/R (bytes, flags, listings)"""
     return line.strip()
@@ -80,7 +95,8 @@ def run(rep, tier, seed, replay=None):
                               {"kind": "config", "cfg": list(cfg), "lines": [line], "with": b[:3000], "without": a[:3000]})
                 nviol += 1
                 break
-        if san and "runtime error" in san or "AddressSanitizer" in san:
+        san = memory_errors(ctx)
+        if san:
             rep.violation("C15: memory error while producing diagnostics (debug=%d verbose=%d meta=%d trimzero=%d): %s" % (cfg + (san,)), {"kind": "config", "cfg": list(cfg), "lines": work[:50]})
             nviol += 1
         if nviol > 4:
@@ -103,7 +119,8 @@ def run(rep, tier, seed, replay=None):
         for (x, lab) in ld:
             if lab:
                 rep.count((cfg, x[:100], lab)); feat["long_diag_" + lab] += 1
-        if len(o3) < len(l3) or "AddressSanitizer" in san or "runtime error" in san:
+        san = memory_errors(ctx) or (san if len(o3) < len(l3) else "")
+        if len(o3) < len(l3) or san:
             k = min(len(o3), len(l3) - 1)
             rep.violation("C15: memory error / crash while formatting long diagnostic text (debug=%d verbose=%d meta=%d trimzero=%d) at: %s  [%s]" % (cfg + (l3[k][:120], san)),
                           {"kind": "config", "cfg": list(cfg), "lines": l3[1:k + 1]})
